@@ -201,8 +201,8 @@ func (e *Exec) oblige(kind, label string, reach, goal Term, pos token.Pos) {
 		name = fmt.Sprintf("%s#%s[%d]:%s", e.unit, kind, n, label)
 	}
 	parts := []Term{goal}
-	switch kind {
-	case "ensures", "invariant-init", "invariant-step", "assert":
+	switch {
+	case kind == "ensures", kind == "invariant-init", kind == "invariant-step", kind == "assert", strings.HasPrefix(kind, "requires@"):
 		parts = e.c.conjuncts(goal)
 	}
 	for i, part := range parts {
